@@ -22,13 +22,16 @@ Fixpoint ewalk_ref (e : enode) : list token :=
 Definition kids_ref (kids : list (enode * str)) : list token :=
   flat_map (fun kt => ewalk_ref (fst kt) ++ text_tokens (snd kt)) kids.
 
-(* weight: 2 per node, 1 per child slot (its tail) -- twice this bounds the number of steps *)
+Definition is_nil {T} (l : list T) : bool := match l with [] => true | _ => false end.
+(* the exact number of steps: 2 per node, 2 per non-empty text and per non-empty tail *)
+Definition tcost (s : str) : nat := if is_nil s then 0%nat else 2%nat.
 Fixpoint esize (e : enode) : nat :=
   match e with
-  | EEl _ _ _ _ kids => S (S (fold_right (fun kt acc => S (esize (fst kt)) + acc)%nat O kids))
+  | EEl _ _ _ t kids => (2 + tcost t + fold_right (fun kt acc => esize (fst kt) + tcost (snd kt) + acc) O kids)%nat
   | _ => 2%nat
   end.
-Definition ksize (kids : list (enode * str)) : nat := fold_right (fun kt acc => S (esize (fst kt)) + acc)%nat O kids.
+Definition ksize (kids : list (enode * str)) : nat :=
+  fold_right (fun kt acc => esize (fst kt) + tcost (snd kt) + acc)%nat O kids.
 
 Lemma enode_ind' (P : enode -> Prop)
   (HEl : forall ns name a t kids, Forall (fun kt => P (fst kt)) kids -> P (EEl ns name a t kids))
@@ -39,7 +42,6 @@ Proof.
 Qed.
 
 (* cursors *)
-Definition is_nil {T} (l : list T) : bool := match l with [] => true | _ => false end.
 Definition cur (e : enode) (tl : str) (key : nat) (ps : list pframe) : ecur2 :=
   {| e2_elt := e; e2_tail := tl; e2_key := key; e2_parents := ps; e2_flag := FNone; e2_bare := is_nil ps |}.
 
@@ -92,7 +94,7 @@ Qed.
 (* Pe e: from "about to open e" (as a child, or as the non-document root) the traversal emits ewalk_ref e and goes on *)
 Definition Pe (e : enode) : Prop :=
   forall isdoc tl key ps, isdoc && is_nil ps = false ->
-  exists n, (n <= 2 * esize e)%nat /\
+  exists n, (n <= esize e)%nat /\
     forall k, enrw (n + k) isdoc (EOpen (cur e tl key ps)) = option_map (app (ewalk_ref e)) (ekont k isdoc (cur e tl key ps)).
 
 Lemma leaf_open isdoc e tl key ps toks : isdoc && is_nil ps = false ->
@@ -127,7 +129,7 @@ Lemma children_walk isdoc pe ptl pkey ps (pkids : list (enode * str)) :
   e_kids pe = pkids ->
   forall right i k0 tl0, nth_error pkids i = Some (k0, tl0) -> skipn (S i) pkids = right ->
   Forall (fun kt => Pe (fst kt)) ((k0, tl0) :: right) ->
-  exists n, (n <= 2 * ksize ((k0, tl0) :: right))%nat /\
+  exists n, (n <= ksize ((k0, tl0) :: right))%nat /\
     forall k, enrw (n + k) isdoc (EOpen (cur k0 tl0 i (frs pe ptl pkey ps)))
               = option_map (app (kids_ref ((k0, tl0) :: right))) (enrw k isdoc (EClose (cur pe ptl pkey ps))).
 Proof.
@@ -138,11 +140,11 @@ Proof.
     { apply nth_error_None. assert (length (skipn (S i) (e_kids pe)) = 0)%nat by (rewrite Hs; reflexivity).
       rewrite skipn_length in H. lia. }
     destruct tl0 as [|t0 tl0'].
-    + exists n. split; [cbn [ksize fold_right length fst] in *; lia|]. intro k. rewrite He.
+    + exists n. split; [cbn [ksize fold_right length fst snd tcost is_nil] in *; lia|]. intro k. rewrite He.
       unfold ekont. unfold frs; cbn [cur e2_bare is_nil e2_next e2_flag e2_tail e2_parents nth_kid p_elt e2_key].
       unfold nth_kid; rewrite Hnext. cbn [e2_parent e2_flag e2_parents p_elt p_tail p_key].
       unfold kids_ref. cbn [flat_map fst snd]. rewrite !app_nil_r. reflexivity.
-    + exists (n + 2)%nat. split; [cbn [ksize fold_right length fst] in *; lia|]. intro k.
+    + exists (n + 2)%nat. split; [cbn [ksize fold_right length fst snd tcost is_nil] in *; lia|]. intro k.
       rewrite <- Nat.add_assoc, He. unfold ekont at 1.
       unfold frs; cbn [cur e2_bare is_nil e2_next e2_flag e2_tail e2_parents e2_elt e2_key].
       change (2 + k)%nat with (S (S k)). rewrite tail_cursor. rewrite omap_app.
@@ -160,12 +162,12 @@ Proof.
     { replace (S (S i)) with (1 + S i)%nat by lia. rewrite <- skipn_skipn'', Hs. reflexivity. }
     destruct (IH (S i) k1 tl1 Hnext Hs' Hrest) as [n2 [Hb2 He2]].
     destruct tl0 as [|t0 tl0'].
-    + exists (n1 + n2)%nat. split; [cbn [ksize fold_right length fst] in *; lia|]. intro k.
+    + exists (n1 + n2)%nat. split; [cbn [ksize fold_right length fst snd tcost is_nil] in *; lia|]. intro k.
       rewrite <- Nat.add_assoc, He1. unfold ekont.
       unfold frs; cbn [cur e2_bare is_nil e2_next e2_flag e2_tail e2_parents nth_kid p_elt e2_key].
       unfold nth_kid; rewrite Hnext. fold (frs pe ptl pkey ps); fold (cur k1 tl1 (S i) (frs pe ptl pkey ps)). rewrite He2, omap_app.
       unfold kids_ref. cbn [flat_map fst snd]. rewrite !app_nil_r, <- ?app_assoc. reflexivity.
-    + exists (n1 + (2 + n2))%nat. split; [cbn [ksize fold_right length fst] in *; lia|]. intro k.
+    + exists (n1 + (2 + n2))%nat. split; [cbn [ksize fold_right length fst snd tcost is_nil] in *; lia|]. intro k.
       rewrite <- Nat.add_assoc, He1. unfold ekont at 1.
       unfold frs; cbn [cur e2_bare is_nil e2_next e2_flag e2_tail e2_parents e2_elt e2_key].
       replace (2 + n2 + k)%nat with (S (S (n2 + k))) by lia. rewrite tail_cursor. rewrite omap_app.
@@ -184,18 +186,18 @@ Lemma Pe_all e : Pe e.
 Proof.
   induction e as [ns name a t kids IH | s | dn dp ds] using enode_ind'; intros isdoc tl key ps Hd.
   - destruct (is_voidH ns name) eqn:V.
-    + exists 2%nat. split; [cbn [esize]; lia|]. intro k.
+    + exists 2%nat. split; [cbn [esize tcost is_nil fold_right]; lia|]. intro k.
       rewrite (leaf_open isdoc _ tl key ps (TEmpty ns name a :: (if e_hasc t kids then [TSerErr void_msg] else [])) Hd).
       * cbn [e2_close e_close cur c_flag e2_flag c_elt e2_elt]. rewrite V, app_nil_r. cbn [ewalk_ref]. rewrite V. reflexivity.
       * cbn [e2_open e_open cur c_flag e2_flag c_elt e2_elt]. rewrite V. reflexivity.
     + destruct kids as [|[k0 tl0] right].
       * destruct t as [|t0 t'].
-        -- exists 2%nat. split; [cbn [esize]; lia|]. intro k.
+        -- exists 2%nat. split; [cbn [esize tcost is_nil fold_right]; lia|]. intro k.
            rewrite (leaf_open isdoc _ tl key ps [TStart ns name a] Hd).
            ++ cbn [e2_close e_close cur c_flag e2_flag c_elt e2_elt]. rewrite V. cbn [ewalk_ref flat_map]. rewrite V. reflexivity.
            ++ cbn [e2_open e_open cur c_flag e2_flag c_elt e2_elt]. rewrite V. reflexivity.
         -- (* text only *)
-           exists 4%nat. split; [cbn [esize]; lia|]. intro k. change (4 + k)%nat with (S (S (S (S k)))).
+           exists 4%nat. split; [cbn [esize tcost is_nil fold_right]; lia|]. intro k. change (4 + k)%nat with (S (S (S (S k)))).
            rewrite enrw_open by exact Hd. cbn [e2_open e_open cur c_flag e2_flag c_elt e2_elt]. rewrite V.
            cbn [length Nat.eqb negb orb fst snd e2_first cur e2_flag e2_elt e_text e2_tail e2_key e2_parents].
            rewrite text_cursor. cbn [e_text]. rewrite omap_app.
@@ -209,7 +211,7 @@ Proof.
           as [n' [Hn' Hk']].
         destruct t as [|t0 t'].
         -- exists (S (n' + 1)). split.
-           { unfold e. cbn [esize ksize fold_right length fst] in *. lia. }
+           { unfold e. cbn [esize ksize fold_right length fst snd tcost is_nil] in *. lia. }
            intro k. replace (S (n' + 1) + k)%nat with (S (n' + S k)) by lia.
            rewrite enrw_open by exact Hd. unfold e. cbn [e2_open e_open cur c_flag e2_flag c_elt e2_elt]. rewrite V.
            cbn [length Nat.eqb negb orb fst snd e2_first cur e2_flag e2_elt e_text e_kids e2_tail e2_key e2_parents].
@@ -217,7 +219,7 @@ Proof.
            unfold e at 1. cbn [e2_close e_close cur c_flag e2_flag c_elt e2_elt]. rewrite V.
            unfold e. cbn [ewalk_ref]. rewrite V. fold (kids_ref ((k0, tl0) :: right)). cbn [app]. reflexivity.
         -- exists (S (2 + (n' + 1))). split.
-           { unfold e. cbn [esize ksize fold_right length fst] in *. lia. }
+           { unfold e. cbn [esize ksize fold_right length fst snd tcost is_nil] in *. lia. }
            intro k. replace (S (2 + (n' + 1)) + k)%nat with (S (S (S (n' + S k)))) by lia.
            rewrite enrw_open by exact Hd. unfold e. cbn [e2_open e_open cur c_flag e2_flag c_elt e2_elt]. rewrite V.
            cbn [length Nat.eqb negb orb fst snd e2_first cur e2_flag e2_elt e_text e_kids e2_tail e2_key e2_parents].
@@ -231,7 +233,7 @@ Proof.
 Qed.
 
 (* walking from an element (the tree walker called on a subtree root) *)
-Theorem ewalk_element e fuel : (2 * esize e <= fuel)%nat -> ewalk fuel false e = Some (ewalk_ref e).
+Theorem ewalk_element e fuel : (esize e <= fuel)%nat -> ewalk fuel false e = Some (ewalk_ref e).
 Proof.
   intro Hf. unfold ewalk. change {| e2_elt := e; e2_tail := []; e2_key := 0; e2_parents := []; e2_flag := FNone; e2_bare := true |}
     with (cur e [] 0 []).
@@ -241,7 +243,7 @@ Proof.
 Qed.
 
 (* walking a document / fragment: the root's own tokens are suppressed *)
-Theorem ewalk_document ns name a t kids fuel : (2 * esize (EEl ns name a t kids) <= fuel)%nat ->
+Theorem ewalk_document ns name a t kids fuel : (esize (EEl ns name a t kids) <= fuel)%nat ->
   ewalk fuel true (EEl ns name a t kids) = Some (text_tokens t ++ kids_ref kids).
 Proof.
   intro Hf. unfold ewalk.
@@ -262,16 +264,143 @@ Proof.
       as [n' [Hn' Hk']].
     { clear. induction ((k0, tl0) :: right) as [|[k tl] r IHr]; constructor; [apply Pe_all|exact IHr]. }
     destruct t as [|t0 t'].
-    + replace fuel with (S (n' + (fuel - n' - 1)))%nat by (unfold e in Hf; cbn [esize ksize fold_right fst] in *; lia).
+    + replace fuel with (S (n' + (fuel - n' - 1)))%nat by (unfold e in Hf; cbn [esize ksize fold_right fst snd tcost is_nil] in *; lia).
       rewrite enrw_open_docroot by reflexivity. unfold e at 1. cbn [e2_first cur e2_flag e2_elt e_text e_kids e2_tail e2_key e2_parents].
       rewrite first_child_cursor. fold e. rewrite Hk'.
-      destruct (fuel - n' - 1)%nat as [|f] eqn:Ef; [unfold e in Hf; cbn [esize ksize fold_right fst] in *; lia|].
+      destruct (fuel - n' - 1)%nat as [|f] eqn:Ef; [unfold e in Hf; cbn [esize ksize fold_right fst snd tcost is_nil] in *; lia|].
       rewrite enrw_close_docroot by reflexivity. cbn [option_map app]. rewrite app_nil_r. reflexivity.
-    + replace fuel with (S (S (S (n' + (fuel - n' - 3)))))%nat by (unfold e in Hf; cbn [esize ksize fold_right fst] in *; lia).
+    + replace fuel with (S (S (S (n' + (fuel - n' - 3)))))%nat by (unfold e in Hf; cbn [esize ksize fold_right fst snd tcost is_nil] in *; lia).
       rewrite enrw_open_docroot by reflexivity. unfold e at 1. cbn [e2_first cur e2_flag e2_elt e_text e_kids e2_tail e2_key e2_parents].
       rewrite text_cursor. cbn [e_text]. unfold ekont.
       cbn [e2_bare e2_next e2_flag e_kids e2_elt e2_tail e2_key e2_parents].
       rewrite first_child_cursor. fold e. rewrite Hk'.
-      destruct (fuel - n' - 3)%nat as [|f] eqn:Ef; [unfold e in Hf; cbn [esize ksize fold_right fst] in *; lia|].
+      destruct (fuel - n' - 3)%nat as [|f] eqn:Ef; [unfold e in Hf; cbn [esize ksize fold_right fst snd tcost is_nil] in *; lia|].
       rewrite enrw_close_docroot by reflexivity. cbn [option_map]. rewrite app_nil_r. reflexivity.
 Qed.
+
+(* ================= the .text/.tail representation of a tree walks like the tree ================= *)
+Notation walkH := (walk voidElements html_ns).
+(* normal form of a tree as ElementTree can hold it: no empty text node, no two adjacent text nodes *)
+Fixpoint adj_ok (l : list node) : bool :=
+  match l with
+  | [] => true
+  | Text s :: r => negb (is_nil s) && (match r with Text _ :: _ => false | _ => true end) && adj_ok r
+  | _ :: r => adj_ok r
+  end.
+Fixpoint norm_ok (n : node) : bool :=
+  match n with
+  | Elem _ _ _ kids => adj_ok kids && forallb norm_ok kids
+  | _ => true
+  end.
+Definition not_text (n : node) : bool := match n with Text _ => false | _ => true end.
+
+Fixpoint goE (kids : list node) : str * list (enode * str) :=
+  match kids with
+  | [] => ([], [])
+  | k :: r =>
+      let '(lead, ch) := goE r in
+      match k with
+      | Text s => (s ++ lead, ch)
+      | _ => ([], (toE k, lead) :: ch)
+      end
+  end.
+Lemma toE_elem ns name a kids : toE (Elem ns name a kids) = let '(t, ch) := goE kids in EEl ns name a t ch.
+Proof. reflexivity. Qed.
+
+Lemma text_tokens_nil : text_tokens [] = [].
+Proof. reflexivity. Qed.
+
+Lemma goE_lead kids : match kids with Text _ :: _ => True | _ => fst (goE kids) = [] end.
+Proof.
+  destruct kids as [|k r]; [reflexivity|]. destruct k; [|exact I| |]; cbn [goE]; destruct (goE r); reflexivity.
+Qed.
+
+Lemma goE_spec kids :
+  Forall (fun k => not_text k = true -> norm_ok k = true -> ewalk_ref (toE k) = walkH k) kids ->
+  adj_ok kids = true -> forallb norm_ok kids = true ->
+  text_tokens (fst (goE kids)) ++ kids_ref (snd (goE kids)) = flat_map walkH kids /\
+  e_hasc (fst (goE kids)) (snd (goE kids)) = negb (is_nil kids).
+Proof.
+  induction kids as [|k r IH]; intros HF Ha Hn.
+  - split; reflexivity.
+  - inversion HF as [|? ? Hk HFr]; subst. cbn [forallb] in Hn. apply andb_true_iff in Hn as [Hnk Hnr].
+    assert (Har : adj_ok r = true).
+    { destruct k; cbn [adj_ok] in Ha; try exact Ha. apply andb_true_iff in Ha as [_ Ha]. exact Ha. }
+    destruct (IH HFr Har Hnr) as [IH1 IH2]. pose proof (goE_lead r) as Hl.
+    cbn [goE]. destruct (goE r) as [lead ch] eqn:Eg. cbn [fst snd] in *.
+    destruct k as [ns name a kk|s|s|dn dp ds].
+    + cbn [fst snd flat_map]. rewrite text_tokens_nil. cbn [app]. unfold kids_ref in *. cbn [flat_map fst snd].
+      rewrite (Hk eq_refl Hnk), <- app_assoc, IH1. split; [reflexivity|]. unfold e_hasc. reflexivity.
+    + cbn [adj_ok] in Ha. apply andb_true_iff in Ha as [Ha _]. apply andb_true_iff in Ha as [Ha1 Ha2].
+      assert (lead = []) by (destruct r as [|[] r']; try exact Hl; discriminate Ha2). subst lead.
+      cbn [fst snd flat_map walk]. rewrite app_nil_r. rewrite text_tokens_nil in IH1. cbn [app] in IH1. rewrite IH1.
+      split; [reflexivity|]. unfold e_hasc. destruct s; [discriminate Ha1|]. cbn. rewrite orb_true_r. reflexivity.
+    + cbn [fst snd flat_map]. rewrite text_tokens_nil. cbn [app]. unfold kids_ref in *. cbn [flat_map fst snd toE ewalk_ref walk].
+      cbn [app]. rewrite IH1. split; reflexivity.
+    + cbn [fst snd flat_map]. rewrite text_tokens_nil. cbn [app]. unfold kids_ref in *. cbn [flat_map fst snd toE ewalk_ref walk].
+      cbn [app]. rewrite IH1. split; reflexivity.
+Qed.
+
+Lemma toE_walk n : not_text n = true -> norm_ok n = true -> ewalk_ref (toE n) = walkH n.
+Proof.
+  induction n as [ns name a kids IH | s | s | dn dp ds] using node_ind'; intros Ht Hn; try reflexivity; [|discriminate Ht].
+  cbn [norm_ok] in Hn. apply andb_true_iff in Hn as [Ha Hk].
+  rewrite toE_elem. destruct (goE_spec kids IH Ha Hk) as [H1 H2]. destruct (goE kids) as [t ch]. cbn [fst snd] in *.
+  cbn [ewalk_ref walk]. destruct (is_voidH ns name).
+  - rewrite H2. destruct kids; reflexivity.
+  - fold (kids_ref ch). rewrite app_assoc, H1. reflexivity.
+Qed.
+
+(* the ElementTree walker on the representation of a tree = the walk of the tree *)
+Theorem etree_walker_element n fuel : not_text n = true -> norm_ok n = true -> (esize (toE n) <= fuel)%nat ->
+  ewalk fuel false (toE n) = Some (walkH n).
+Proof. intros Ht Hn Hf. rewrite (ewalk_element _ _ Hf), (toE_walk n Ht Hn). reflexivity. Qed.
+Theorem etree_walker_document kids fuel : adj_ok kids = true -> forallb norm_ok kids = true ->
+  (esize (toE (Elem None [] [] kids)) <= fuel)%nat ->
+  ewalk fuel true (toE (Elem None [] [] kids)) = Some (walk_all voidElements html_ns kids).
+Proof.
+  intros Ha Hk Hf. rewrite toE_elem in *. destruct (goE kids) as [t ch] eqn:Eg.
+  rewrite (ewalk_document _ _ _ _ _ _ Hf).
+  assert (HF : Forall (fun k => not_text k = true -> norm_ok k = true -> ewalk_ref (toE k) = walkH k) kids).
+  { apply Forall_forall. intros k _. apply toE_walk. }
+  destruct (goE_spec kids HF Ha Hk) as [H1 _]. rewrite Eg in H1. cbn [fst snd] in H1. rewrite H1. reflexivity.
+Qed.
+
+(* the fuel the entry points supply (Model/C11.v: 4 * size + 8) is enough *)
+Lemma tcost_le s : (tcost s <= 2)%nat.
+Proof. unfold tcost. destruct (is_nil s); lia. Qed.
+Lemma goE_cost kids : Forall (fun k => (esize (toE k) <= 2 * size k)%nat) kids ->
+  (tcost (fst (goE kids)) + ksize (snd (goE kids)) <= 2 * fsize kids)%nat.
+Proof.
+  induction kids as [|k r IH]; intro HF; [cbn; lia|].
+  inversion HF as [|? ? Hk HFr]; subst. specialize (IH HFr). cbn [goE]. destruct (goE r) as [lead ch]. cbn [fst snd] in *.
+  unfold fsize in *. cbn [fold_right].
+  unfold ksize in *.
+  destruct k as [ns name a kk|s|s|dn dp ds]; cbn [fst snd fold_right] in *.
+  - cbn [tcost is_nil]. lia.
+  - pose proof (tcost_le (s ++ lead)). pose proof (tcost_le lead). cbn [size]. lia.
+  - cbn [tcost is_nil toE esize size] in *. lia.
+  - cbn [tcost is_nil toE esize size] in *. lia.
+Qed.
+Lemma esize_toE n : (esize (toE n) <= 2 * size n)%nat.
+Proof.
+  induction n as [ns name a kids IH | s | s | dn dp ds] using node_ind'; try (cbn; lia).
+  rewrite toE_elem. pose proof (goE_cost kids IH) as H. destruct (goE kids) as [t ch]. cbn [fst snd] in H.
+  cbn [esize size]. fold (ksize ch). fold (fsize kids). lia.
+Qed.
+
+Theorem etree_walker_element_model_fuel n : not_text n = true -> norm_ok n = true ->
+  ewalk (4 * size n + 8) false (toE n) = Some (walkH n).
+Proof. intros Ht Hn. apply etree_walker_element; [exact Ht|exact Hn|]. pose proof (esize_toE n). lia. Qed.
+Theorem etree_walker_document_model_fuel kids : adj_ok kids = true -> forallb norm_ok kids = true ->
+  ewalk (4 * fsize kids + 8) true (toE (Elem None [] [] kids)) = Some (walk_all voidElements html_ns kids).
+Proof.
+  intros Ha Hk. apply etree_walker_document; [exact Ha|exact Hk|].
+  pose proof (esize_toE (Elem None [] [] kids)) as H. cbn [size] in H. fold (fsize kids) in H. lia.
+Qed.
+
+(* hence the two walkers emit the same stream for the same document *)
+From Verif.Proofs Require C11.
+Theorem etree_and_dom_walkers_agree kids : adj_ok kids = true -> forallb norm_ok kids = true ->
+  ewalk (4 * fsize kids + 8) true (toE (Elem None [] [] kids)) = walk_doc_nrw (2 * fsize kids + 4) kids.
+Proof. intros Ha Hk. rewrite (etree_walker_document_model_fuel kids Ha Hk). symmetry. apply C11.nrw_doc_correct. Qed.
